@@ -15,7 +15,7 @@ from sa import sigdata, families, codec, tables
 from sa.interp import alpha, sl, Interp, Scenario, Sym, Const, Bytes, Enum, render, render_items, merge_consts, render_item
 from sa.loader import AnalysisError, dotted
 from sa.sigdata import enum_const
-from sa.templates import unmodelled, b2i_forms, resolve_lookup, display_keys, area_template, match, render_template, Pred, C, BYTE, SYM
+from sa.templates import length_covers_run, unmodelled, b2i_forms, resolve_lookup, display_keys, area_template, match, render_template, Pred, C, BYTE, SYM
 
 noinline = lambda f: False  # noqa: E731
 
@@ -811,7 +811,9 @@ def check_sigv4_writer(rep, prog):
         k = next((i for i, it in enumerate(raw) if it[0] == 'INT' and str(it[1]) == '4'), None)
         rest = 'len(%s)' % render_items(raw[k + 1:]) if k is not None else None
         body = [BYTE('%s.header.version' % X)] + fields + [SYM('%s.subpackets.__hashbytearray__()' % X), C('0000')] + tail
-        tpl = [C('88'), Pred('LEN(4; the body that follows)', lambda it, _rest=rest: it[0] == 'INT' and str(it[1]) == '4' and it[2] == _rest)] + body
+        follow = raw[k + 1:] if k is not None else []
+        tpl = [C('88'), Pred('LEN(4; the body that follows)', lambda it, _f=follow: it[0] == 'INT' and str(it[1]) == '4' and
+                             length_covers_run(it[2], _f))] + body
         ok, _, msg = match(raw, tpl) if raw else (False, 0, 'not a byte string')
         must_model(ok, 'SignatureV4.canonical_bytes', r)
         rep.check(ok, 'C02.5', 'SignatureV4.canonical_bytes', r[:100],
